@@ -77,6 +77,9 @@ class SDVRPEnv(CVRPEnv):
             -1, current_node, -delivered_demand
         )
 
+        # An exactly-filling delivery leaves a float32 residue (1 - 0.85 != 0.15): that is not demand
+        demand_with_depot = demand_with_depot * (demand_with_depot > 1e-6)
+
         # Get done
         done = ~(demand_with_depot > 0).any(-1)
 
